@@ -207,6 +207,61 @@ impl VisitExpr for LeafRecorder {
     leaf_callbacks!();
 }
 
+/// Output that records the SHAPE of the fold: `d` the default, `x` a leaf, `(a b)` a combine.
+pub struct Shape(String);
+
+impl Default for Shape {
+    fn default() -> Self {
+        Shape("d".to_string())
+    }
+}
+
+impl Combine for Shape {
+    fn combine(self, other: Self) -> Self {
+        Shape(format!("({} {})", self.0, other.0))
+    }
+}
+
+/// Overrides the leaf callbacks only; every leaf is `x`.
+struct ShapeRecorder;
+
+impl Visit for ShapeRecorder {
+    type Output = Shape;
+    type Error = usize;
+}
+
+macro_rules! shape_leaves {
+    ($($name:ident($arg:ty)),* $(,)?) => {
+        $(fn $name(&mut self, _: $arg) -> Result<Self> { Ok(Shape("x".to_string())) })*
+    };
+}
+
+impl VisitExpr for ShapeRecorder {
+    shape_leaves!(
+        visit_binary_operator(BinaryOperator),
+        visit_unary_operator(UnaryOperator),
+        visit_literal_expression(&WithRange<LiteralExpression>),
+        visit_pronoun(SourceRange),
+        visit_simple_identifier(WithRange<&SimpleIdentifier>),
+        visit_common_identifier(WithRange<&CommonIdentifier>),
+        visit_proper_identifier(WithRange<&ProperIdentifier>),
+        visit_poetic_number_literal_elem(&PoeticNumberLiteralElem),
+    );
+}
+
+/// `walkshape`: how the walk combines the results (`ok SHAPE` / `crash`).
+pub fn walk_shape(program: &Program) -> String {
+    let run = catch_unwind(AssertUnwindSafe(|| {
+        let mut runner = ExprVisitorRunner::with_inner(ShapeRecorder);
+        runner.visit_program(program)
+    }));
+    match run {
+        Ok(Ok(shape)) => format!("ok {}", shape.0),
+        Ok(Err(f)) => format!("err {}", f),
+        Err(_) => "crash".to_string(),
+    }
+}
+
 /// `walkleaf`: the leaves presented by a walk, in order (`ok EV,…` / `err F EV,…` / `crash`).
 pub fn walk_leaves(program: &Program, fail_at: Option<usize>) -> String {
     let run = catch_unwind(AssertUnwindSafe(|| {
